@@ -264,16 +264,27 @@ fn toy<F: PrimeField>(rng: &mut Rng, out: &mut Out, t: &Toy) {
     let mut terms: Terms<F> = Vec::new();
     for d in 0..3usize { for cf in &tcoef { terms.push((d, *cf)); } }
     let raws = all_vecs(&terms, t.raw_len);
-    let mut odd: Vec<SparsePolynomial<F>> = Vec::new();   // non-canonical stored results, used as operands below
+    let mut consts: Vec<SparsePolynomial<F>> = Vec::new();   // the distinct polynomials the constructor produced
     for raw in &raws {
         s_from(&mut c, raw);
-        if let Some(s) = sp(raw) {
-            let st = s.to_vec();
-            let ok = st.windows(2).all(|w| w[0].0 < w[1].0) && st.iter().all(|(_, cf)| !cf.is_zero());
-            if !ok && !odd.contains(&s) { odd.push(s); }
-        }
+        if let Some(s) = sp(raw) { if !consts.contains(&s) { consts.push(s); } }
     }
-    // non-canonical stored sparse operands (model = impl only; verdicts are notes)
+    // every constructor result as operand of the binary sparse ops and as divisor / dividend
+    for s in &consts { for u in &consts { ss_ops(&mut c, s, u, true); } }
+    // non-canonical stored sparse operands (model = impl only; verdicts are notes).  The constructor no
+    // longer produces any; the stored terms are reachable through `DerefMut<[(usize, F)]>`:
+    // last stored coefficient zero / zero term in front / a degree stored twice below the top /
+    // zero polynomial with stored terms.
+    let mut odd: Vec<SparsePolynomial<F>> = Vec::new();
+    let multi: Vec<&SparsePolynomial<F>> = sps.iter().filter(|s| s.len() >= 2).collect();
+    let stride = (multi.len() / 12).max(1);
+    for s in multi.iter().step_by(stride).take(12) {
+        let n = s.len();
+        let mut a = (*s).clone(); a[n - 1].1 = F::zero(); odd.push(a);
+        let mut b = (*s).clone(); b[0].1 = F::zero(); odd.push(b);
+        if n >= 3 { let mut d = (*s).clone(); d[1].0 = d[0].0; odd.push(d); }
+        let mut z = (*s).clone(); for t in z.iter_mut() { t.1 = F::zero(); } odd.push(z);
+    }
     let partners_d: Vec<Vec<F>> = vec![vec![], vec![el[1]], vec![el[2], el[1]], vec![el[1], el[0], nz[nz.len() - 1]], vec![el[0], el[0]]];
     let partners_s: Vec<SparsePolynomial<F>> = vec![sp(&[]).unwrap(), sp(&[(0, el[1])]).unwrap(), sp(&[(1, nz[nz.len() - 1]), (2, el[1])]).unwrap(), sp(&[(2, nz[nz.len() - 1])]).unwrap()];
     for s in &odd {
